@@ -178,5 +178,5 @@ ReplayRecord ==
    mirror |-> [reg |-> RegView, out |-> out]]
 
 Replay == Terminal => PrintT(<<"REPLAY", ToJson(ReplayRecord)>>)
-View == <<input, phase, added, mods, reg, start, todo, err, out>>
+View == StdView
 =============================================================================
